@@ -230,6 +230,7 @@ static Rsp t12_osap(Buf *b, uint16_t et, uint32_t ev) {
 /* =====================================================  C18  ===================================================== */
 
 static long c18_failed_seen;
+static uint32_t c18x_object_handle(void);
 static void c18_trace(const uint8_t *req, uint32_t n, const Rsp *r, uint32_t maxbuf) {
     tr_begin("cmd ret=%u loc=%d maxbuf=%u bufsize=%u len=%u", r->ret, g_locality, maxbuf, r->bufsize, r->len);
     trhex("req", req, n);
@@ -252,7 +253,7 @@ static uint32_t c18_interesting_u32(void) {
     case 1: return 1;
     case 2: return 0xFFFFFFFFu;
     case 3: return rnd(24);
-    case 4: return g12_nsess ? g12_sess[rnd(g12_nsess)] : 0x02000000u;
+    case 4: return chance(60) && g12_nsess ? g12_sess[rnd(g12_nsess)] : c18x_object_handle();
     case 5: return 0x40000000u;             /* TPM_KH_SRK */
     case 6: return 0x40000001u + rnd(6);    /* owner, revoke, transport, operator, admin, EK */
     case 7: return 0x00011200u + rnd(4);    /* NV indices the prefix defined */
@@ -381,6 +382,7 @@ static void c18_one(Buf *b, uint32_t ord) {
     Rsp r = c18_run_raw(b->p, n);
     if (ord == T12_ORD_OIAP || ord == T12_ORD_OSAP) g12_learn_handle(&r);
 }
+#include "scen_tpm12_c18x.h"
 /* health probe: GetTestResult (always allowed) + PCRRead(0) (answers TPM_FAILEDSELFTEST in the failed state) */
 static int c18_health(Buf *b) {
     t12_begin(b, T12_TAG0, T12_ORD_GetTestResult); Rsp g = c18_run(b);
@@ -396,6 +398,7 @@ static void c18_prefix(Buf *b, int h) {
     if (h % 4 == 3) { t12_begin(b, T12_TAG0, T12_ORD_ContinueSelfTest); c18_run(b); }
     t12_begin(b, T12_TAG0, T12_TSC_PhysicalPresence); b_u16(b, 0x20); c18_run(b);
     t12_begin(b, T12_TAG0, T12_TSC_PhysicalPresence); b_u16(b, 0x08); c18_run(b);
+    if (h % 3 == 2) c18x_install_owner(b, h % 12 == 2);          /* EK + SRK (+ one wrapped key): 2-3 RSA key generations */
     if (h % 8 == 5) {                                            /* an endorsement key (one RSA-2048 generation) so that EK paths are live */
         t12_begin(b, T12_TAG0, T12_ORD_CreateEndorsementKeyPair); b_fill(b, 20, 0);
         b_u32(b, 1); b_u16(b, 3); b_u16(b, 1); b_u32(b, 12); b_u32(b, 2048); b_u32(b, 2); b_u32(b, 0);
@@ -421,6 +424,8 @@ static void c18_prefix(Buf *b, int h) {
     t12_begin(b, T12_TAG0, T12_ORD_NV_DefineSpace); t12_nv_public(b, 0x00011204u, 0x10001u, 4200); b_fill(b, 20, 1); c18_run(b);
     { uint32_t mb = tpm12_maxbuf(); int32_t off[] = {-15, -14, -13, 0, 50};
       for (int i = 0; i < 5; i++) { t12_begin(b, T12_TAG0, T12_ORD_NV_ReadValue); b_u32(b, 0x00011204u); b_u32(b, 0); b_u32(b, (uint32_t)((int32_t)mb + off[i])); c18_run(b); } }
+    /* nvLocked in a third of the histories: the NV permission checks are only made then */
+    if (h % 3 == 1) { t12_begin(b, T12_TAG0, T12_ORD_NV_DefineSpace); t12_nv_public(b, 0xFFFFFFFFu, 0, 0); b_fill(b, 20, 1); Rsp r = c18_run(b); if (r.rc == 0) c18x_nvlocked = 1; }
     t12_begin(b, T12_TAG0, T12_ORD_SHA1Start); c18_run(b);
 }
 /* the stream contains PhysicalDisable / SetDeactivated / ForceClear ...: bring the TPM back to enabled+activated
@@ -435,6 +440,7 @@ static int c18_repair(Buf *b) {
     tr("restart ret=%u", ret);
     if (ret != TPM_SUCCESS) return 0;
     g12_nsess = 0;
+    c18x_own.live = c18x_zero.live = c18x_trans.live = 0; c18x_key = 0;      /* sessions and loaded keys are gone */
     t12_begin(b, T12_TAG0, T12_ORD_Startup); b_u16(b, 1); c18_run(b);
     t12_begin(b, T12_TAG0, T12_TSC_PhysicalPresence); b_u16(b, 0x20); c18_run(b);
     t12_begin(b, T12_TAG0, T12_TSC_PhysicalPresence); b_u16(b, 0x08); c18_run(b);
@@ -447,6 +453,7 @@ static void c18_history(int h, void *arg) {
     int ncmds = *(int *)arg;
     Buf b = {0};
     tpm12_fresh();
+    c18x_reset();
     if (h % 3 == 1) TPMLIB_SetBufferSize(3072 + rnd(1025), NULL, NULL); else TPMLIB_SetBufferSize(4096, NULL, NULL);
     tr("fresh maxbuf=%u", tpm12_maxbuf());
     c18_prefix(&b, h);
@@ -463,7 +470,9 @@ static void c18_history(int h, void *arg) {
     for (int i = 0; i < ncmds; i++) {
         if (chance(15)) g_locality = rnd(5);
         if (chance(3)) g_pp = rnd(2);
-        c18_one(&b, c18_pick_ordinal());
+        if (!c18x_step(&b)) c18_one(&b, c18_pick_ordinal());
+        /* the random trailers run into the dictionary-attack timeout: a power cycle now and then lets authorized commands through again */
+        if (c18x_owner && i % 256 == 255 && !c18_repair(&b)) break;
         if (i % 64 == 63) {
             int prc = c18_health(&b);
             /* failed state (not persisted) / disabled / deactivated: power cycle and continue the history */
@@ -471,7 +480,7 @@ static void c18_history(int h, void *arg) {
         }
     }
     c18_health(&b);
-    b_free(&b);
+    b_free(&b); b_free(&c18x_ib); free(c18x_keyblob); c18x_keyblob = NULL;
 }
 static void scen_c18(int histories, int ncmds) {
     Buf b = {0};
